@@ -32,3 +32,73 @@ package fat2
 //@   canary @sum_always err == nil ==> sumAmt(t.Transfers, len(t.Transfers)) == t.Input.Amount
 //@   modifies nothing
 //@   loop 1 invariant @rem 0 <= iter && iter <= len(t.Transfers) && remainingInputAmount + sumAmt(t.Transfers, iter) == t.Input.Amount
+//@
+//@ spec func txOK(xs []Transaction, i int) bool =
+//@     xs[i].Input.Address != coinbase
+//@     && ((len(xs[i].Transfers) == 0) != (xs[i].Conversion == PTickerInvalid))
+//@     && (!isConv(xs[i]) ==> len(xs[i].Transfers) > 0 && sumAmt(xs[i].Transfers, len(xs[i].Transfers)) == xs[i].Input.Amount)
+//@     && (isConv(xs[i]) ==> xs[i].Input.Type != xs[i].Conversion)
+//@ spec func tickersInRange(xs []Transaction) bool = forall k int :: 0 <= k && k < len(xs) ==> tickerOrInvalid(xs[k].Conversion)
+//@ spec func dataOK(t *TransactionBatch) bool =
+//@     t.Version == 1 && len(t.Transactions) >= 1
+//@     && (forall k int :: 0 <= k && k < len(t.Transactions) ==> txOK(t.Transactions, k))
+//@     && (forall i int, j int :: 0 <= i && i < len(t.Transactions) && 0 <= j && j < len(t.Transactions) ==> t.Transactions[i].Input.Address == t.Transactions[j].Input.Address)
+//@
+//@ func (*TransactionBatch).ValidData
+//@   requires @ticker_range tickersInRange(t.Transactions)
+//@   ensures @version err == nil ==> t.Version == 1 && len(t.Transactions) >= 1
+//@   ensures @each_valid err == nil ==> (forall k int :: 0 <= k && k < len(t.Transactions) ==> txOK(t.Transactions, k))
+//@   ensures @one_input err == nil ==> (forall i int, j int :: 0 <= i && i < len(t.Transactions) && 0 <= j && j < len(t.Transactions) ==> t.Transactions[i].Input.Address == t.Transactions[j].Input.Address)
+//@   modifies nothing
+//@   loop 1 invariant @valid_prefix 0 <= iter && iter <= len(t.Transactions) && (forall k int :: 0 <= k && k < iter ==> txOK(t.Transactions, k))
+//@   loop 1 invariant @inputs_in_set forall k int :: 0 <= k && k < iter ==> dom(uniqueInputs)[t.Transactions[k].Input.Address]
+//@   loop 1 invariant @fresh_map fresh(uniqueInputs) && uniqueInputs != nil
+//@
+//@ // ---- signatures (C05) -------------------------------------------------------------
+//@ spec func flagFor(h int) int = bitor(h > wrap_int32(Fat2RCDEActivation) ? 6 : 2, h < 0 ? 1 : 0)
+//@ spec func signedBy(e factom.Entry, xs []Transaction, flag int) bool =
+//@     exists S set[factom.Bytes32] :: sigOK(e, S, flag) && (forall k int :: 0 <= k && k < len(xs) ==> S[xs[k].Input.Address])
+//@
+//@ func (TransactionBatch).ValidExtIDs
+//@   ensures @signed err == nil ==> signedBy(t.Entry, t.Transactions, flagFor(height))
+//@   canary @signed_other_flag err == nil ==> signedBy(t.Entry, t.Transactions, 7)
+//@   modifies nothing
+//@   loop 1 invariant @inputs_in_set 0 <= iter && iter <= len(t.Transactions) && (forall k int :: 0 <= k && k < iter ==> dom(uniqueInputs)[t.Transactions[k].Input.Address])
+//@   loop 1 invariant @fresh_map fresh(uniqueInputs) && uniqueInputs != nil
+//@
+//@ spec func amountsFit(xs []Transaction) bool = forall k int :: 0 <= k && k < len(xs) ==> xs[k].Input.Amount <= MaxInt64
+//@ spec func validatedAt(t *TransactionBatch, h int) bool = dataOK(t) && signedBy(t.Entry, t.Transactions, flagFor(h)) && amountsFit(t.Transactions)
+//@
+//@ func (*TransactionBatch).Validate
+//@   requires @ticker_range tickersInRange(t.Transactions)
+//@   ensures @validated err == nil ==> validatedAt(t, height)
+//@   modifies nothing
+//@   loop 1 invariant @fit_prefix 0 <= iter && iter <= len(t.Transactions) && (forall k int :: 0 <= k && k < iter ==> t.Transactions[k].Input.Amount <= MaxInt64)
+//@
+//@ func (*TransactionBatch).ValidatePegTx
+//@   requires @ticker_range tickersInRange(t.Transactions)
+//@   ensures @data err == nil ==> dataOK(t)
+//@   ensures @no_peg err == nil ==> (forall k int :: 0 <= k && k < len(t.Transactions) ==> t.Transactions[k].Conversion != PTickerPEG)
+//@   modifies nothing
+//@   loop 1 invariant @nopeg_prefix 0 <= iter && iter <= len(t.Transactions) && (forall k int :: 0 <= k && k < iter ==> t.Transactions[k].Conversion != PTickerPEG)
+//@
+//@ func (*TransactionBatch).HasConversions
+//@   ensures @def result <==> (exists k int :: 0 <= k && k < len(t.Transactions) && isConv(t.Transactions[k]))
+//@   modifies nothing
+//@   loop 1 invariant @none_prefix 0 <= iter && iter <= len(t.Transactions) && (forall k int :: 0 <= k && k < iter ==> !isConv(t.Transactions[k]))
+//@
+//@ func (*TransactionBatch).HasPEGRequest
+//@   ensures @def result <==> (exists k int :: 0 <= k && k < len(t.Transactions) && len(t.Transactions[k].Transfers) == 0 && t.Transactions[k].Conversion == PTickerPEG)
+//@   modifies nothing
+//@   loop 1 invariant @none_prefix 0 <= iter && iter <= len(t.Transactions) && (forall k int :: 0 <= k && k < iter ==> !(len(t.Transactions[k].Transfers) == 0 && t.Transactions[k].Conversion == PTickerPEG))
+//@
+//@ // JSON decoding is outside the verified subset (encoding/json): assumed contract.
+//@ func (*TransactionBatch).UnmarshalJSON
+//@   trusted
+//@   modifies t.Version, t.Transactions, t.Metadata
+//@   ensures result == nil ==> tickersInRange(t.Transactions)
+//@
+//@ func NewTransactionBatch
+//@   ensures @validated err == nil ==> result != nil && validatedAt(result, height) && result.Entry == entry
+//@   ensures @nil_on_error err != nil ==> result == nil
+//@   modifies nothing
